@@ -67,8 +67,9 @@ func (r *Value) set(value proto.Message, request WriteRequest) (proto.Message, e
 		},
 		request.changeFn(writer, value),
 		func(message proto.Message) {
+			changeTime := request.updateTime(r.clock) // read once: the stored value and its event carry the same time
 			r.value = message
-			r.changeTime = request.updateTime(r.clock)
+			r.changeTime = changeTime
 			disarm()
 
 			// publish while the write lock is still held: events then reach subscribers in the order the
@@ -77,7 +78,7 @@ func (r *Value) set(value proto.Message, request WriteRequest) (proto.Message, e
 			defer cancel()
 			r.bus.Send(ctx, &ValueChange{
 				Value:      message,
-				ChangeTime: request.updateTime(r.clock),
+				ChangeTime: changeTime,
 			})
 			if errors.Is(ctx.Err(), context.DeadlineExceeded) {
 				sendErr = errors.New("bus.Send blocked for too long")
